@@ -1,4 +1,5 @@
 import QuinnModel.Gen.Conn
+import QuinnModel.Gen.Conn2
 /-
 Skeleton model of the anti-amplification accounting of one network path
 (quinn-proto/src/connection/paths.rs `PathData::{validated,total_sent,total_recvd,anti_amplification_blocked}`,
@@ -51,3 +52,47 @@ def Ev.wf (M : Nat) : Ev → Prop
 def run (p : Path) (evs : List Ev) : Path := evs.foldl step p
 
 end QM.Amp
+
+/-
+Off-path PATH_RESPONSE (connection/mod.rs `process_payload`: `path_responses.push(number, token, remote, packet_len)`
+for a PATH_CHALLENGE from ANY source address; `poll_transmit`: `pop_off_path`, one datagram to that address outside
+the gated loop and outside `total_sent`). The padding rule is GENERATED: `Gen.offPathPadFactor` = N when the datagram
+is expanded to `min(MIN_INITIAL_SIZE, N * size of the packet that carried the challenge)`, 0 when it is always
+expanded to MIN_INITIAL_SIZE.
+-/
+namespace QM.Amp.OffPath
+
+/-- size of the datagram that carries the response; `unpadded` = header + frame + tag -/
+def respSize (unpadded pktLen : Nat) : Nat :=
+  if Gen.offPathPadFactor = 0 then max unpadded Gen.libMinInitialSize
+  else max unpadded (min Gen.libMinInitialSize (Gen.offPathPadFactor * pktLen))
+
+/-- the simulator's ledger of one off-path address -/
+structure L where
+  sent : Nat
+  recvd : Nat
+deriving Repr, DecidableEq
+
+/-- a datagram of `dgram` bytes from the address carried a 1-RTT packet of `pkt` bytes (header + plaintext
+    payload, as `process_payload` measures it) with a PATH_CHALLENGE; the response, `unpadded` bytes before
+    padding, is sent -/
+structure Ev where
+  dgram : Nat
+  pkt : Nat
+  unpadded : Nat
+deriving Repr
+
+def step (l : L) (e : Ev) : L := { sent := l.sent + respSize e.unpadded e.pkt, recvd := l.recvd + e.dgram }
+
+def run (l : L) (evs : List Ev) : L := evs.foldl step l
+
+/-- what every real exchange satisfies: the packet is part of its datagram; the unpadded response
+    (1 + remote CID ≤ 20 + packet number ≤ 4 + frame 9 + tag 16 ≤ 50 bytes) is at most three times the datagram
+    that carried the challenge (≥ 1 + 1 + 9 + 16 = 27 bytes) -/
+def Ev.wf (e : Ev) : Prop := e.pkt ≤ e.dgram ∧ e.unpadded ≤ 3 * e.dgram
+
+/-- sizes as the packet layout fixes them -/
+theorem unpadded_le_3x (rcid pnLen lcid pnLen' extra : Nat) (hr : rcid ≤ 20) (hp : pnLen ≤ 4) (hp' : 1 ≤ pnLen') :
+    1 + rcid + pnLen + 9 + 16 ≤ 3 * (1 + lcid + pnLen' + 9 + extra + 16) := by omega
+
+end QM.Amp.OffPath
